@@ -333,6 +333,16 @@ func (s *seqRun) limitsProbe() {
 	if s.hist["setattr:ok"] != okb {
 		s.oracle("C19", "beyond-maxfilesize-accepted", "SETATTR beyond the announced maximum file size was accepted")
 	}
+	// every size beyond the maximum, up to the largest 64-bit value (sums that wrap around included)
+	for _, big := range []uint64{mfs + 4096, 2 * mfs, 1 << 32, 1 << 62, 1 << 63, ^uint64(0) - 8192, ^uint64(0) - 4095, ^uint64(0) - 4094, ^uint64(0) - 1, ^uint64(0)} {
+		okb = s.hist["setattr:ok"]
+		b := big
+		s.opSetattr(k, &b, timeHow{}, timeHow{})
+		if s.hist["setattr:ok"] != okb {
+			s.oracle("C19", "beyond-maxfilesize-accepted", fmt.Sprintf("SETATTR to size %d (announced maximum file size %d) was accepted", big, mfs))
+		}
+	}
+	s.opGetattr(k)
 	s.opRead(k, mfs-100, 200)
 	z := uint64(0)
 	s.opSetattr(k, &z, timeHow{}, timeHow{})
